@@ -918,7 +918,7 @@ def whole_tool(chk, tier, table, root, nseeds, rng):
             gr = run([gbin], timeout=300)
             gout = parse_emitted(gr.stderr)
         g = Built(name, gb, gbin, gout, gr, flags + ["-literals"], env, seed_bytes)
-        log(f"whole-tool {name}: {len(prog.cells)} cells, regular {rb.wall:.0f}s, garble {gb.wall:.0f}s rc={gb.returncode}")
+        log(f"whole-tool {name}: {len(prog.cells)} cells, regular {rb.wall:.0f}s, garble {gb.wall:.0f}s rc={gb.returncode} (cache key {key})")
         _cache_store(key, ref, g)
         runs.append((prog, ref, g))
     return sb, runs
